@@ -58,7 +58,7 @@ BASE_MEM = 64 << 20  # interpreter + stdlib constants (tarfile probing its xz/bz
 
 
 def budget(tier):
-    return 25000 if tier == "quick" else 400000
+    return 15000 if tier == "quick" else 400000
 
 
 def scratch_dir():
